@@ -142,7 +142,14 @@ func (e *Ev) evGhostCall(x *ast.CallExpr) Val {
 			e.unsupp(x, "inlang needs a language name")
 		}
 		if _, ok := fx.prog.spec.Langs[lid.Name]; !ok {
-			panic(unsupported{"unknown language " + lid.Name})
+			if !strings.HasPrefix(lid.Name, "re_") {
+				panic(unsupported{"unknown language " + lid.Name})
+			}
+			pat, err := fx.prog.codeRegexPattern(strings.TrimPrefix(lid.Name, "re_"))
+			if err != nil {
+				panic(unsupported{err.Error()})
+			}
+			fx.prog.registerCodeRegex(lid.Name, pat)
 		}
 		fx.useSeq = true
 		fx.langsUsed[lid.Name] = true
@@ -221,6 +228,13 @@ func (e *Ev) evGhostCall(x *ast.CallExpr) Val {
 	if sf, ok := fx.prog.spec.Funcs[id.Name]; ok {
 		return e.callSpecFunc(sf, x)
 	}
+	if sig, ok := builtinSpecSigs[id.Name]; ok {
+		sf := &SpecFunc{Name: id.Name, Ret: sig[len(sig)-1]}
+		for i, t := range sig[:len(sig)-1] {
+			sf.Params = append(sf.Params, SpecParam{fmt.Sprintf("a%d", i), t})
+		}
+		return e.callSpecFunc(sf, x)
+	}
 	e.unsupp(x, "unknown ghost function %s", id.Name)
 	return nil
 }
@@ -255,6 +269,11 @@ func (fx *FuncCtx) iteValPure(c Term, a, b Val) Val {
 	panic(unsupported{fmt.Sprintf("ite over %T", a)})
 }
 
+var builtinSpecSigs = map[string][]string{
+	"hex2lower": {"int", "seq"}, "hex6upper": {"int", "seq"}, "utf8enc": {"seq", "seq"}, "utf8dec": {"seq", "seq"},
+	"utf8len": {"int", "int"}, "bs_nth": {"seq", "int", "int"}, "hexdigl": {"int", "int"}, "hexdigu": {"int", "int"},
+}
+
 func specSort(t string) string {
 	switch t {
 	case "int":
@@ -285,6 +304,12 @@ func (e *Ev) callSpecFunc(sf *SpecFunc, x *ast.CallExpr) Val {
 		case "seq":
 			e.fx.useSeq = true
 			ts = append(ts, e.seqArg(v, x.Args[i]))
+		case "str":
+			sv, ok := v.(VStr)
+			if !ok {
+				e.unsupp(x, "spec func %s: argument %d must be a string view", sf.Name, i+1)
+			}
+			ts = append(ts, sv.B, sv.O, sv.L)
 		default:
 			e.unsupp(x, "spec param type %s", p.Type)
 		}
@@ -312,6 +337,11 @@ func (p *Prog) specFuncDef(sf *SpecFunc) (def string, uses map[string]bool, lang
 	var ps []string
 	bound := map[string]Val{}
 	for _, pa := range sf.Params {
+		if pa.Type == "str" {
+			ps = append(ps, fmt.Sprintf("(%s_b (Array Int Int)) (%s_o Int) (%s_l Int)", pa.Name, pa.Name, pa.Name))
+			bound[pa.Name] = VStr{B: pa.Name + "_b", O: pa.Name + "_o", L: pa.Name + "_l"}
+			continue
+		}
 		ps = append(ps, fmt.Sprintf("(%s %s)", pa.Name, specSort(pa.Type)))
 		switch pa.Type {
 		case "int":
@@ -330,6 +360,10 @@ func (p *Prog) specFuncDef(sf *SpecFunc) (def string, uses map[string]bool, lang
 	if sf.Uninterpreted {
 		var ss []string
 		for _, pa := range sf.Params {
+			if pa.Type == "str" {
+				ss = append(ss, sortArr, sortInt, sortInt)
+				continue
+			}
 			ss = append(ss, specSort(pa.Type))
 		}
 		return fmt.Sprintf("(declare-fun %s (%s) %s)", sf.Name, strings.Join(ss, " "), specSort(sf.Ret)), fx.specUsed, fx.langsUsed, fx.useSeq
@@ -345,8 +379,11 @@ func (p *Prog) specFuncDef(sf *SpecFunc) (def string, uses map[string]bool, lang
 	case "seq":
 		body = ev.seqArg(v, sf.Body.Expr)
 	}
-	if len(fx.lines) > 0 {
-		panic(unsupported{"spec function " + sf.Name + " needs auxiliary declarations (string literals are not allowed in spec function bodies; use unit/cat)"})
+	for _, l := range fx.lines {
+		f := strings.Fields(l)
+		if len(f) > 1 && (f[0] == "(declare-const" || f[0] == "(define-fun") && strings.Contains(body, f[1]) {
+			panic(unsupported{"spec function " + sf.Name + " needs auxiliary declarations; use unit/cat instead of indexing string literals"})
+		}
 	}
 	kw := "define-fun"
 	if sf.Rec {
